@@ -249,6 +249,7 @@ class Document:
         if not m:
             raise PdfError('no startxref / %%EOF at the end')
         xref_pos = int(m.group(1))
+        self.xref_pos = xref_pos
         if data[xref_pos:xref_pos + 4] == b'xref':
             self._load_table(xref_pos)
         else:
